@@ -63,6 +63,8 @@ static void show_bFileExtBlock (
 #include <assert.h>
 
 
+static RETCODE adfFileSeekEOF_ ( struct AdfFile * const file );
+
 RETCODE adfFileTruncateGetBlocksToRemove ( const struct AdfFile * const file,
                                            const uint32_t               fileSizeNew,
                                            AdfVectorSectors * const     blocksToRemove )
@@ -301,23 +303,30 @@ RETCODE adfFileTruncate ( struct AdfFile * const file,
         return RC_OK;
     }
 
+    // 0. the block lists are read back from the volume: write what is buffered
+    RETCODE rc = adfFileFlush ( file );
+    if ( rc != RC_OK )
+        return rc;
+    file->currentDataBlockChanged = FALSE;
+
     // 1.
     AdfVectorSectors blocksToRemove;
-    RETCODE rc = adfFileTruncateGetBlocksToRemove ( file, fileSizeNew,
-                                                    &blocksToRemove );
+    rc = adfFileTruncateGetBlocksToRemove ( file, fileSizeNew,
+                                            &blocksToRemove );
     if ( rc != RC_OK )
         return rc;
 
-    // 2. seek to the new EOF
-    rc = adfFileSeek ( file, fileSizeNew );
+    // 2. seek to the new EOF: the last block that is kept becomes the current one
+    file->fileHdr->byteSize = fileSizeNew;
+    rc = adfFileSeekEOF_ ( file );
     if ( rc != RC_OK ) {
+        file->fileHdr->byteSize = fileSizeOld;
         free ( blocksToRemove.sectors );
         return rc;
     }
     assert ( file->pos == fileSizeNew );
 
     // 3.
-    file->fileHdr->byteSize = fileSizeNew;
     if ( fileSizeNew == 0 ) {
         // the new file is an empty file
 
@@ -383,6 +392,12 @@ RETCODE adfFileTruncate ( struct AdfFile * const file,
         } else {
             file->currentExt->extension = 0;
         }
+    }
+
+    /* without extension blocks there is no current one (its block is released) */
+    if ( adfFileSize2Extblocks ( fileSizeNew, file->volume->datablockSize ) < 1 ) {
+        free ( file->currentExt );
+        file->currentExt = NULL;
     }
 
     // 4.
